@@ -1,7 +1,7 @@
 (* Corr.v — comparison of model outputs with the implementation's observables,
    evaluated by vm_compute from generated case files (definitions only). *)
 From Coq Require Import ZArith List Bool Lia.
-From Dendro Require Import Base Tree Grid Criteria Compute Index Prune PruneGhost Newick IO DEq Cache Plot Moments.
+From Dendro Require Import Base Tree Grid Criteria Compute Index Prune PruneGhost Newick IO DEq Cache Plot Moments Stats.
 Import ListNotations.
 Open Scope Z_scope.
 
@@ -127,3 +127,14 @@ Definition moments_view (ps : list Moments.pt) (nd : nat) (dirs : list (list QAr
    (map (fun i => Plot.qpair (Moments.mom1 ps i)) (seq 0 nd),
     (map (fun i => map (fun j => Plot.qpair (Moments.mom2 ps i j)) (seq 0 nd)) (seq 0 nd),
      map (fun u => (Plot.qpair (Moments.quad ps nd u u), Plot.qpair (Moments.dot u u))) dirs))).
+
+(* ---- PP / PPV statistics (C11): exact quantities as reduced fractions *)
+Definition ppv_view (ps : list Moments.pt) (vaxis : nat) :=
+  let m := Stats.ppv_sky ps vaxis in
+  (Plot.qpair (Stats.tr2 m), (Plot.qpair (Stats.det2 m), (Plot.qpair (Stats.v_var ps vaxis),
+   (Plot.qpair (Stats.ppv_v_cen ps vaxis), (Plot.qpair (Stats.ppv_y_cen ps vaxis), (Plot.qpair (Stats.ppv_x_cen ps vaxis),
+    Z.of_nat (Stats.ppv_area_count ps vaxis))))))).
+Definition pp_view (ps : list Moments.pt) :=
+  let m := Stats.pp_sky ps in
+  (Plot.qpair (Stats.tr2 m), (Plot.qpair (Stats.det2 m),
+   (Plot.qpair (Stats.pp_y_cen ps), (Plot.qpair (Stats.pp_x_cen ps), Z.of_nat (Stats.pp_area_count ps))))).
